@@ -379,6 +379,9 @@ def oracle_registers(p, seed, keys, init=None):
 
 def replay(cex):
     import numpy as np
+    if cex.get("kind") == "w":
+        from engine import wrun
+        return wrun.replay_generic(cex)
     Hm = H()
     k = cex["kind"]
     if k == "nlz":
@@ -515,6 +518,9 @@ def main():
     for m in ms:
         obs.append(common.Ob(f"_merge == element-wise max, m={m} (+ algebra)", ob_merge_spec, (m, tmo), hard_s=tmo / 1000 * 6 + 60, bounds={"m": m}))
         obs.append(common.Ob(f"merge/add commute on the kernels, m={m}", ob_merge_add_commute, (m, m.bit_length() - 1, tmo), hard_s=tmo / 1000 + 60, bounds={"m": m}))
+    from engine import wrun
+    wobs, wmeta = wrun.obligations("c02", tier)
+    obs += wobs
     results = common.run_obligations(obs, progress=os.environ.get("VERIF_VERBOSE") == "1")
     funcs = set()
     for r in results:
@@ -529,7 +535,7 @@ def main():
                 "histories": "no bounded unrolling needed: each lemma is an exact functional specification from an ARBITRARY register state, and every register state with values <= 65-p is reachable (FastHash64 on 8-byte keys is a bijection), so replays build the pre-state by real adds"},
         stubs=["fasthash64 -> arbitrary 64-bit value per (key identity), same value for the same key (exact: FastHash64 on 8-byte keys is a bijection, used by the replay)"],
         assumptions=["Numba lowering preserves typed-IR semantics", "equal keys give equal hashes in every sketch and process (C11)",
-                     "HyperLogLog.add/update/merge wrappers forward to the kernels (C12/C15)"],
+                     "HyperLogLog.add/update/add_ngram wrappers forward to the kernels ignoring multiplicities and query() evaluates the current registers: CrossHair conditions attached to this check (w_c12, w_c17); merge guard: C15"],
         outside=["_merge for m > 512 (uniform loop body)", "composition of the step lemmas into 'any history = fresh sketch fed each distinct key once' is an induction written in DESIGN.md, each lemma is a solver result",
                  "query() as a function of the registers (C17)"],
         explanation="register-update semantics of the real kernels proved equal to the documented rule for all hashes/precisions; merge == pointwise max; algebraic laws; counterexamples replayed as real add/merge histories",
